@@ -16,6 +16,9 @@ type verifSrc struct {
 	pos    int
 	closed int
 	cuts   []int // chunk boundaries (absolute positions); a read never crosses the next boundary
+
+	deadlineSet     int
+	deadlineCleared bool
 }
 
 func (s *verifSrc) Read(p []byte) (int, error) {
@@ -39,9 +42,17 @@ func (s *verifSrc) Read(p []byte) (int, error) {
 	s.pos += n
 	return n, nil
 }
-func (s *verifSrc) Close() error                       { s.closed++; return nil }
-func (s *verifSrc) SetReadDeadline(t time.Time) error  { return nil }
-func (s *verifSrc) RemoteAddr() net.Addr               { return nil }
+func (s *verifSrc) Close() error { s.closed++; return nil }
+func (s *verifSrc) SetReadDeadline(t time.Time) error {
+	if t.IsZero() {
+		s.deadlineCleared = true
+	} else {
+		s.deadlineSet++
+		s.deadlineCleared = false
+	}
+	return nil
+}
+func (s *verifSrc) RemoteAddr() net.Addr { return nil }
 
 var verifRtspPrefixes = []string{"OPTIONS * RTSP", "OPTIONS * rtsp", "OPTIONS rtsp://", "OPTIONS RTSP://",
 	"DESCRIBE", "ANNOUNCE", "SETUP", "PLAY", "PAUSE", "TEARDOWN", "GET_PARAMETER", "SET_PARAMETER", "RECORD", "REDIRECT"}
